@@ -61,6 +61,10 @@ fn lost(msg: String) {
     LOST.with(|l| l.borrow_mut().push(msg));
 }
 
+fn fail(msg: &str) -> ! {
+    std::panic::panic_any(msg.to_string())
+}
+
 fn die(msg: &str) -> ! {
     eprintln!("vx-assemble: {}", msg);
     std::process::exit(2)
@@ -481,7 +485,7 @@ fn selected_fns<'a>(src: &Src, item: &'a syn::Item, st: &'a ItemStanza, strict: 
             }
             for s in &st.fns {
                 if strict && !seen.contains(&s.name) {
-                    lost(format!("LOST-ANCHOR: fn `{}` not found in item `{}`", s.name, st.selector));
+                    lost(format!("LOST-ANCHOR: fn `{}` not found in item `{}` [tags={}]", s.name, st.selector, if s.tags.is_empty() { st.tags.join(",") } else { s.tags.join(",") }));
                 }
             }
             for v in st.verify.iter().filter(|v| *v != "*") {
@@ -682,15 +686,15 @@ fn find_stmt<'a>(src: &Src, shape: &BodyShape<'a>, d: &Dir, ctx: &str) -> &'a sy
         .filter(|s| norm_ws(&src.text[src.start(*s)..src.end(*s)]).starts_with(&prefix))
         .collect();
     if hits.is_empty() {
-        die(&format!("LOST-ANCHOR {}: no statement starts with `{}`", ctx, prefix));
+        fail(&format!("LOST-ANCHOR {}: no statement starts with `{}`", ctx, prefix));
     }
     if nth == 0 {
         if hits.len() > 1 {
-            die(&format!("LOST-ANCHOR {}: statement prefix `{}` is ambiguous ({} hits)", ctx, prefix, hits.len()));
+            fail(&format!("LOST-ANCHOR {}: statement prefix `{}` is ambiguous ({} hits)", ctx, prefix, hits.len()));
         }
         hits[0]
     } else {
-        hits.get(nth - 1).copied().unwrap_or_else(|| die(&format!("LOST-ANCHOR {}: statement `{}` has no hit #{}", ctx, prefix, nth)))
+        hits.get(nth - 1).copied().unwrap_or_else(|| fail(&format!("LOST-ANCHOR {}: statement `{}` has no hit #{}", ctx, prefix, nth)))
     }
 }
 
@@ -723,7 +727,16 @@ fn pass2(fs_: &FileSpec, text1: &str, is_root: bool, map: &mut Vec<BTreeMap<Stri
             continue; // removed in pass 1
         }
         let ictx = format!("{} item `{}`", fctx, st.selector);
-        let idx = match find_item(&file, &st.selector, &fctx) { Some(i) => i, None => continue };
+        let idx = match find_item(&file, &st.selector, &fctx) {
+            Some(i) => i,
+            None => {
+                let mut all: Vec<String> = st.tags.clone();
+                for f in &st.fns { all.extend(f.tags.clone()); }
+                all.sort(); all.dedup();
+                lost(format!("LOST-ANCHOR-TAGS item `{}` [tags={}]", st.selector, all.join(",")));
+                continue;
+            }
+        };
         let item = &file.items[idx];
         let (istart, iend) = (src.start(item), src.end(item));
         let tags = st.tags.join(",");
@@ -775,7 +788,7 @@ fn pass2(fs_: &FileSpec, text1: &str, is_root: bool, map: &mut Vec<BTreeMap<Stri
                 let m = match m {
                     Some(m) => m,
                     None => {
-                        lost(format!("LOST-ANCHOR: fn `{}` not found in trait `{}`", fs_st.name, st.selector));
+                        lost(format!("LOST-ANCHOR: fn `{}` not found in trait `{}` [tags={}]", fs_st.name, st.selector, st.tags.join(",")));
                         continue;
                     }
                 };
@@ -829,24 +842,28 @@ fn pass2(fs_: &FileSpec, text1: &str, is_root: bool, map: &mut Vec<BTreeMap<Stri
             let body_open_start = src.off(f.block.brace_token.span.open().start());
             let body_open_end = src.off(f.block.brace_token.span.open().end());
             let body_close_start = src.off(f.block.brace_token.span.close().start());
+            let saved = edits.v.len();
+            let saved_norms = norms.len();
+            let mut wrapped_closures: Vec<usize> = vec![];
+            let res = std::panic::catch_unwind(std::panic::AssertUnwindSafe(|| {
             for d in &stanza.dirs {
                 let k = d.kind.as_str();
                 let idx_arg = |what: &str| -> usize {
                     d.args
                         .get(0)
                         .and_then(|s| s.parse::<usize>().ok())
-                        .unwrap_or_else(|| die(&format!("{}: @{} needs an index ({})", cctx, k, what)))
+                        .unwrap_or_else(|| fail(&format!("{}: @{} needs an index ({})", cctx, k, what)))
                 };
                 match k {
                     "shape" => {
                         for a in &d.args {
                             if let Some(v) = a.strip_prefix("loops=") {
                                 if v.parse::<usize>().ok() != Some(shape.loops.len()) {
-                                    die(&format!("LOST-ANCHOR {}: expected {} loops, found {}", cctx, v, shape.loops.len()));
+                                    fail(&format!("LOST-ANCHOR {}: expected {} loops, found {}", cctx, v, shape.loops.len()));
                                 }
                             } else if let Some(v) = a.strip_prefix("closures=") {
                                 if v.parse::<usize>().ok() != Some(shape.closures.len()) {
-                                    die(&format!("LOST-ANCHOR {}: expected {} closures, found {}", cctx, v, shape.closures.len()));
+                                    fail(&format!("LOST-ANCHOR {}: expected {} closures, found {}", cctx, v, shape.closures.len()));
                                 }
                             }
                         }
@@ -860,7 +877,7 @@ fn pass2(fs_: &FileSpec, text1: &str, is_root: bool, map: &mut Vec<BTreeMap<Stri
                                 edits.ins(src.start(ty.as_ref()), format!("({}: ", name), base("ret", Some(d), &f.name, &ftags));
                                 edits.ins(src.end(ty.as_ref()), ")".to_string(), base("ret", Some(d), &f.name, &ftags));
                             }
-                            syn::ReturnType::Default => die(&format!("LOST-ANCHOR {}: @ret but fn has no return type", cctx)),
+                            syn::ReturnType::Default => fail(&format!("LOST-ANCHOR {}: @ret but fn has no return type", cctx)),
                         }
                     }
                     "spec" => edits.ins(body_open_start, format!("\n{}", d.text), base("spec", Some(d), &f.name, &ftags)),
@@ -876,7 +893,7 @@ fn pass2(fs_: &FileSpec, text1: &str, is_root: bool, map: &mut Vec<BTreeMap<Stri
                     }
                     "loop" | "loop-start" | "loop-end" => {
                         let i = idx_arg("loop ordinal");
-                        let l = shape.loops.get(i).unwrap_or_else(|| die(&format!("LOST-ANCHOR {}: loop {} not found", cctx, i)));
+                        let l = shape.loops.get(i).unwrap_or_else(|| fail(&format!("LOST-ANCHOR {}: loop {} not found", cctx, i)));
                         let b = l.body();
                         match k {
                             "loop" => {
@@ -891,15 +908,10 @@ fn pass2(fs_: &FileSpec, text1: &str, is_root: bool, map: &mut Vec<BTreeMap<Stri
                     }
                     "closure" | "closure-start" | "closure-end" => {
                         let i = idx_arg("closure ordinal");
-                        let c = shape.closures.get(i).unwrap_or_else(|| die(&format!("LOST-ANCHOR {}: closure {} not found", cctx, i)));
+                        let c = shape.closures.get(i).unwrap_or_else(|| fail(&format!("LOST-ANCHOR {}: closure {} not found", cctx, i)));
                         match (k, c.body.as_ref()) {
                             ("closure", syn::Expr::Block(b)) => {
                                 edits.ins(src.start(b), format!("\n{}", d.text), base("closure-spec", Some(d), &f.name, &ftags));
-                            }
-                            ("closure", body) => {
-                                edits.ins(src.start(body), format!("\n{}{{ ", d.text), base("closure-spec", Some(d), &f.name, &ftags));
-                                edits.ins(src.end(body), " }".to_string(), meta(&[("kind", "norm")]));
-                                norms.push(format!("N6 {} fn {}: closure {} body wrapped in braces to carry its contract", fs_.file, f.name, i));
                             }
                             ("closure-start", syn::Expr::Block(b)) => {
                                 edits.ins(src.off(b.block.brace_token.span.open().end()), format!("\n{}", d.text), base("ghost", Some(d), &f.name, &ftags));
@@ -907,10 +919,66 @@ fn pass2(fs_: &FileSpec, text1: &str, is_root: bool, map: &mut Vec<BTreeMap<Stri
                             ("closure-end", syn::Expr::Block(b)) => {
                                 edits.ins(src.off(b.block.brace_token.span.close().start()), format!("\n{}", d.text), base("ghost", Some(d), &f.name, &ftags));
                             }
-                            _ => die(&format!("UNSUPPORTED {}: @{} on a closure without a block body", cctx, k)),
+                            (_, body) => {
+                                // N6: a closure whose body is a bare expression gets braces so that it can carry
+                                // its contract / ghost code. All directives of this closure are emitted together,
+                                // in the order spec, `{`, start ... end, `}`.
+                                if !wrapped_closures.contains(&i) {
+                                    wrapped_closures.push(i);
+                                    let mut pre = String::new();
+                                    let mut start = String::new();
+                                    let mut end = String::new();
+                                    for d2 in &stanza.dirs {
+                                        if d2.args.get(0).and_then(|s| s.parse::<usize>().ok()) != Some(i) {
+                                            continue;
+                                        }
+                                        match d2.kind.as_str() {
+                                            "closure" => pre.push_str(&d2.text),
+                                            "closure-start" => start.push_str(&d2.text),
+                                            "closure-end" => end.push_str(&d2.text),
+                                            _ => {}
+                                        }
+                                    }
+                                    if !pre.is_empty() {
+                                        edits.ins(src.start(body), format!("\n{}", pre), base("closure-spec", Some(d), &f.name, &ftags));
+                                    }
+                                    edits.ins(src.start(body), "{ ".to_string(), meta(&[("kind", "norm")]));
+                                    if !start.is_empty() {
+                                        edits.ins(src.start(body), format!("\n{}", start), base("ghost", Some(d), &f.name, &ftags));
+                                    }
+                                    if !end.is_empty() {
+                                        edits.ins(src.end(body), ";".to_string(), meta(&[("kind", "norm")]));
+                                        edits.ins(src.end(body), format!("\n{}", end), base("ghost", Some(d), &f.name, &ftags));
+                                    }
+                                    edits.ins(src.end(body), " }".to_string(), meta(&[("kind", "norm")]));
+                                    norms.push(format!("N6 {} fn {}: closure {} body wrapped in braces to carry its contract", fs_.file, f.name, i));
+                                }
+                            }
                         }
                     }
-                    other => die(&format!("{}: unexpected fn directive @{}", cctx, other)),
+                    other => fail(&format!("{}: unexpected fn directive @{}", cctx, other)),
+                }
+            }
+            }));
+            if let Err(e) = res {
+                let msg = e.downcast_ref::<String>().cloned().unwrap_or_else(|| "anchor failure".to_string());
+                edits.v.truncate(saved);
+                norms.truncate(saved_norms);
+                lost(format!("{} => fn demoted to external_body (its obligations are undecided) [tags={}]", msg, if ftags.is_empty() { tags.clone() } else { ftags.clone() }));
+                // keep the contract (so callers still verify against it) but do not verify the body
+                edits.ins(f.whole_start, "#[verifier::external_body] ".to_string(), base("demoted", None, &f.name, &ftags));
+                for d in &stanza.dirs {
+                    match d.kind.as_str() {
+                        "ret" => {
+                            let name = d.args.get(0).cloned().unwrap_or_else(|| "r".into());
+                            if let syn::ReturnType::Type(_, ty) = &f.sig.output {
+                                edits.ins(src.start(ty.as_ref()), format!("({}: ", name), base("ret", Some(d), &f.name, &ftags));
+                                edits.ins(src.end(ty.as_ref()), ")".to_string(), base("ret", Some(d), &f.name, &ftags));
+                            }
+                        }
+                        "spec" => edits.ins(body_open_start, format!("\n{}", d.text), base("spec-assumed", Some(d), &f.name, &ftags)),
+                        _ => {}
+                    }
                 }
             }
             let _ = (body_open_end, body_close_start);
@@ -1093,6 +1161,7 @@ fn cmd_items(args: &BTreeMap<String, String>) {
 }
 
 fn main() {
+    std::panic::set_hook(Box::new(|_| {}));
     let argv: Vec<String> = std::env::args().collect();
     if argv.len() < 2 {
         die("usage: vx-assemble <assemble|extract|items> --key value ...");
